@@ -135,7 +135,7 @@ Lemma rel_step s r a :
   Rel (sk_step KSubject s a) (sref_step KSubject r a).
 Proof.
   intros [Rg Lg En Fr Ow N1 N2 Un] Ha.
-  destruct a as [k p rs | k | h e | |]; try contradiction.
+  destruct a as [k p rs | k | h e | | |]; try contradiction.
   - (* subscribe *)
     destruct p; try contradiction. destruct h; try contradiction. destruct rs; try contradiction.
     cbn [sk_step]. rewrite Ha. cbn [sref_step].
@@ -280,7 +280,7 @@ Proof. induction l as [|k l IH]; intro s; cbn [fold_left]; auto. rewrite IH. app
 Lemma used_step s a k :
   sk_used (sk_step KSubject s a) k = sk_used s k || match a with DSub k' _ _ => Nat.eqb k k' | _ => false end.
 Proof.
-  destruct a as [k' p rs | k' | h e | |]; cbn [sk_step]; try now rewrite orb_false_r.
+  destruct a as [k' p rs | k' | h e | | |]; cbn [sk_step]; try now rewrite orb_false_r.
   - destruct (sk_used s k') eqn:U.
     + destruct (Nat.eqb k k') eqn:E; [apply Nat.eqb_eq in E; subst; rewrite U; reflexivity | now rewrite orb_false_r].
     + unfold inner_join. cbn. unfold updf. destruct (Nat.eqb k k'); [now rewrite orb_true_r | now rewrite orb_false_r].
@@ -303,13 +303,13 @@ Proof.
   cbn [plain_history forallb] in PH. apply andb_prop in PH. destruct PH as [Pa PH].
   apply IH; auto.
   - apply rel_step; auto.
-    destruct a as [k p rs | k | h e | |]; try discriminate; auto.
+    destruct a as [k p rs | k | h e | | |]; try discriminate; auto.
     + destruct p; try discriminate. destruct h; try discriminate. destruct rs; try discriminate.
       apply UN. cbn. now left.
     + now apply Nat.eqb_eq in Pa.
   - destruct a; cbn in ND; auto. now inversion ND.
   - intros k Hk. rewrite used_step. rewrite UN.
-    + destruct a as [k' p rs | | | |]; auto. cbn.
+    + destruct a as [k' p rs | | | | |]; auto. cbn.
       destruct (Nat.eqb k k') eqn:E; auto. apply Nat.eqb_eq in E; subst. cbn in ND. inversion ND; contradiction.
     + destruct a; cbn; auto.
 Qed.
@@ -382,7 +382,7 @@ Qed.
 Lemma step_cells_sub kind s a :
   match a with DEmit _ _ => True | _ => same_cells (sk_step kind s a) s end.
 Proof.
-  destruct a as [k p rs | k | h e | |]; cbn [sk_step]; auto; try apply sc_refl.
+  destruct a as [k p rs | k | h e | | |]; cbn [sk_step]; auto; try apply sc_refl.
   - destruct (sk_used s k); [apply sc_refl |]. destruct kind.
     + unfold inner_join. sc_set.
     + cbn. destruct (sk_err s); [eapply sc_trans; [apply sc_udeliver | sc_set] |].
@@ -427,12 +427,13 @@ Theorem replay_items_are_pushed script :
 Proof.
   unfold sk_run. change (pushed script) with (sk_items (sk0 None) ++ pushed script).
   generalize (sk0 None). induction script as [|a script IH]; intro s; cbn [fold_left]; [cbn; now rewrite app_nil_r |].
-  rewrite IH. destruct a as [k p rs | k | h e | |].
+  rewrite IH. destruct a as [k p rs | k | h e | | |].
   - destruct (step_cells_sub KReplay s (DSub k p rs)) as (_ & _ & C & _). now rewrite C.
   - destruct (step_cells_sub KReplay s (DUnsub k)) as (_ & _ & C & _). now rewrite C.
   - destruct (step_cells_emit KReplay s h e) as (_ & _ & C & _). rewrite C. destruct e; cbn; auto. now rewrite <- app_assoc.
   - destruct (step_cells_sub KReplay s (DConnect k x)) as (_ & _ & C & _). now rewrite C.
   - destruct (step_cells_sub KReplay s (DDisconnect x)) as (_ & _ & C & _). now rewrite C.
+  - destruct (step_cells_sub KReplay s (DPush s0 e)) as (_ & _ & C & _). now rewrite C.
 Qed.
 
 (* the value a BehaviorSubject hands over after any plain history without a terminal = the last pushed (or the initial one) *)
@@ -448,13 +449,13 @@ Proof.
   { clear. induction script as [|a script IH]; intros s v0 HL HE NT; cbn [fold_left]; [cbn; auto |].
     assert (NT' : fold_left (fun acc a => match acc, a with None, DEmit _ (Er x) => Some (Er x) | None, DEmit _ Co => Some Co | _, _ => acc end) script None = None /\
                   match a with DEmit _ (Er _) | DEmit _ Co => False | _ => True end).
-    { cbn [fold_left] in NT. destruct a as [| | h e | |]; auto. destruct e; auto.
+    { cbn [fold_left] in NT. destruct a as [| | h e | | |]; auto. destruct e; auto.
       - exfalso. clear -NT. assert (X : forall l t, fold_left (fun acc a => match acc, a with None, DEmit _ (Er x) => Some (Er x) | None, DEmit _ Co => Some Co | _, _ => acc end) l (Some t) = Some t)
           by (induction l as [|a l IHl]; intro t; cbn; auto). rewrite X in NT. discriminate.
       - exfalso. clear -NT. assert (X : forall l t, fold_left (fun acc a => match acc, a with None, DEmit _ (Er x) => Some (Er x) | None, DEmit _ Co => Some Co | _, _ => acc end) l (Some t) = Some t)
           by (induction l as [|a l IHl]; intro t; cbn; auto). rewrite X in NT. discriminate. }
     destruct NT' as [NT1 NA].
-    destruct a as [k p rs | k | h e | k x | x].
+    destruct a as [k p rs | k | h e | k x | x | sm em].
     - destruct (step_cells_sub KBehavior s (DSub k p rs)) as (A & B & _ & _). apply IH; auto; congruence.
     - destruct (step_cells_sub KBehavior s (DUnsub k)) as (A & B & _ & _). apply IH; auto; congruence.
     - destruct e as [v | |]; try contradiction.
@@ -465,6 +466,7 @@ Proof.
         by (induction l as [|y l IHl]; intros x d d'; [reflexivity | change (last (y :: l) d = last (y :: l) d'); apply IHl]).
       destruct (pushed script) as [|v1 l]; [reflexivity |]. change (last (v1 :: l) v = last (v1 :: l) v0). apply LD.
     - destruct (step_cells_sub KBehavior s (DConnect k x)) as (A & B & _ & _). apply IH; auto; congruence.
-    - destruct (step_cells_sub KBehavior s (DDisconnect x)) as (A & B & _ & _). apply IH; auto; congruence. }
+    - destruct (step_cells_sub KBehavior s (DDisconnect x)) as (A & B & _ & _). apply IH; auto; congruence.
+    - destruct (step_cells_sub KBehavior s (DPush sm em)) as (A & B & _ & _). apply IH; auto; congruence. }
   apply G; auto.
 Qed.
